@@ -3,14 +3,14 @@
    N, Z, positive, nat stay the extracted inductive types.  No Extract Constant. *)
 Require Extraction.
 Require Import ExtrOcamlBasic.
-From BM Require Import Bytes Utf8 Strings Regex Escape Tokenizer Policy Url Style RecCheck KwHandler GenCss Attrs Loop Builder Entry Helpers C19Inst C04Inst.
+From BM Require Import Bytes Utf8 Strings Regex Escape Tokenizer Policy Url Style RecCheck KwHandler GenCss Attrs Loop Builder Entry Helpers C19Inst C04Inst C18RxClean.
 Extraction Language OCaml.
 Extraction "model.ml"
   Bytes.beqb Utf8.runes Utf8.encode Regex.search Regex.matches Regex.witness C19Inst.c19_report
   Strings.to_lower Strings.trim_space Strings.fields Strings.equal_fold Strings.quote_to_ascii_body
   Escape.escape Escape.unescape Escape.escape_comment
   Tokenizer.tokenize Tokenizer.render1
-  Url.valid_url Style.remove_unicode Style.sanitize_styles RecCheck.rc_sets KwHandler.build_handlers GenCss.css_handler_defs GenCss.css_acceptors
+  Url.valid_url Style.remove_unicode Style.sanitize_styles RecCheck.rc_sets C18RxClean.css_handlers C18RxClean.css_defs_kept
   Attrs.is_data_attribute Attrs.linkable Attrs.sanitize_attrs Attrs.allow_no_attrs
   Loop.normalise Loop.run Loop.sanitize_bytes Loop.element_policies
   Builder.new_policy Builder.apply Builder.build
